@@ -69,6 +69,8 @@ def run(ctx, rep):
     rep.rule('R11.3', '`stop`/`volgende` bind to the innermost loop of the same function; `antwoord` only inside a function; function bodies are skipped by the enclosing code')
     rep.rule('R11.4', 'no residue: statements net zero and early exits do not abandon operands')
     rep.rule('R11.5', 'every jump target is an instruction boundary inside the emitted code')
+    rep.rule('R11.6', 'an expression statement always ends in Pop (that Pop is what lets a block recover the value of its last expression statement)')
+    check_stmt_expr_pop(R, rep, 'R11.6')
 
     # CSA violations on the control-flow arms
     for v in R['violations']:
@@ -220,3 +222,20 @@ def run(ctx, rep):
         if a['trace'].startswith('Expr::While') and a['reach']:
             rep.sample({'arm': a['trace'], 'stream': [c.get('op') or ('<%s>' % (c.get('arg') or '').split('/')[-1]) for c in a['code']]})
             break
+
+
+def check_stmt_expr_pop(R, rep, rule):
+    seen = set()
+    n = 0
+    for a in R['arms']:
+        if a['method'] != 'compile_statement' or not a['trace'].startswith('Stmt::Expr') or not a['reach']:
+            continue
+        key = (a['trace'], a['last'])
+        if key in seen:
+            continue
+        seen.add(key)
+        n += 1
+        rep.ob(a['last'] == 'Pop', rule, COMPILER + '::compile_statement', 'expression statement ' + a['trace'],
+               'the code of an expression statement must end with OpCode::Pop (last emitted: %s): otherwise a block, if-branch, loop body or function '
+               'ending in this statement yields null instead of the statement\'s value' % a['last'], 'src/compiler.rs')
+    rep.count('stmt_expr_paths', n)
